@@ -52,6 +52,11 @@ QUERIES = [
     ('select', 'select distinct a2'),
     ('select', 'select distinct count a2'),
     ('select', 'select top 2 *'),
+    ('select', 'select distinct count *'),
+    ('select', 'select distinct *'),
+    ('select', 'select distinct count a.* order by a1'),
+    ('select', 'select a.*, a1 order by a2 limit 3'),
+    ('select', 'select *, * where NR > 1'),
     ('except', 'select * except a2'),
     ('except', 'select * except a1, a3'),
     ('except', 'select * except a3'),
@@ -95,7 +100,7 @@ def generate(rng, tier, idx):
     world = {'rows': rows, 'join_rows': workload.gen_join_table(rng, rng.choice([0, 1, 2, 3, 4])),
              'header': rng.random() < 0.3, 'list_quirks': None}
     if rng.random() < 0.3:
-        world['list_quirks'] = {'shared': rng.random() < 0.5, 'ragged': rng.random() < 0.5, 'none_cell': rng.random() < 0.5}
+        world['list_quirks'] = {'shared': rng.random() < 0.5, 'ragged': rng.random() < 0.5, 'none_cell': rng.random() < 0.5, 'ragged_join': rng.random() < 0.5}
     nops = rng.choice([1, 2, 2, 3, 3, 4, 5, 6])
     ops = []
     for _ in range(nops):
@@ -162,6 +167,10 @@ class World(object):
                 self.A.append(['1', 'v1', 'r', 'extra'])
             if q.get('none_cell') and self.A:
                 self.A[0][-1] = None
+            if q.get('ragged_join') and self.B:
+                self.B[0] = self.B[0][:2]
+                if len(self.B) > 1:
+                    self.B[-1] = self.B[-1] + ['w']
         self.header_snap = list(self.header) if self.header else None
         self.jheader_snap = list(self.jheader) if self.jheader else None
         self.A_snap = deep(self.A)
@@ -273,6 +282,8 @@ class World(object):
         if js is not None:
             if js.get('aliased'):
                 return ('js_alias', {'rows': js.get('rows')})
+            if js.get('headers_unchanged') is False:
+                return ('js_mutated', {'table': 'column names', 'after': js.get('headers_after')})
             if js.get('input_unchanged') is False:
                 return ('js_mutated', {'table': 'input', 'after': js.get('input_after')})
             if js.get('join_unchanged') is False:
@@ -357,8 +368,8 @@ def run_op(t, world, op):
                    'join_rows': [list(r) for r in world.js_join], 'mutate_output': True,
                    'api': 'query_table' if front == 'js_table' else 'query'}
             if world.header:
-                req['header'] = world.header
-                req['join_header'] = world.jheader
+                req['header'] = list(world.header)
+                req['join_header'] = list(world.jheader)
             r = jsbridge.call(req)
             produced['js'] = r
             outcome = r['outcome'] + [len(r['rows'])]
